@@ -34,6 +34,15 @@ CONSTRUCTS = [
     ("stack_from_failing_seq", "[1, 2].map((x: int)->{{if(x == 2, {0}, x)}}).to_stack()", 1),
     ("sum_of_failing", "[1, 2].map((x: int)->{{if(x == 2, {0}, x)}}).sum()", 1),
     ("add_of_failing_seqs", "([1].map((x: int)->{{ {0} }}) + [2]).to_array()", 1),
+    # operations on *empty* collections: the shortcut for "nothing to do" must not come before the arguments
+    ("discard_on_empty_mapping", "mapping<int>().set(9, 9).discard(9).discard({0})", 1), ("discard_on_fresh_mapping", "mapping<int>().discard({0}).set(1, 2)", 1),
+    ("pop_on_empty_mapping", "mapping<int>().set(9, 9).discard(9).pop({0})", 1), ("get_on_empty_mapping", "mapping<int>().set(9, 9).discard(9).get({0})", 1),
+    ("lookup_on_empty_mapping", "mapping<int>().set(9, 9).discard(9).lookup({0})", 1), ("contains_on_empty_mapping", "mapping<int>().set(9, 9).discard(9).contains({0})", 1),
+    ("discard_on_empty_set", "set<int>().discard({0})", 1), ("remove_on_empty_set", "set<int>().remove({0})", 1), ("contains_on_empty_set", "set<int>().contains({0})", 1),
+    ("get_on_empty_seq", "[1].skip(1).get({0})", 1), ("pop_on_empty_seq", "[1].skip(1).pop({0})", 1), ("take_on_empty_seq", "[1].skip(1).take({0})", 1),
+    ("skip_on_empty_seq", "[1].skip(1).skip({0})", 1), ("repeat_on_empty_seq", "[1].skip(1).repeat({0})", 1), ("mul_empty_str", "'' * {0}", 1), ("substring_of_empty", "''.substring({0}, {1})", 2),
+    ("take_on_empty_gen", "[1].skip(1).to_generator().take({0}).to_array()", 1), ("update_empty_with_empty", "set<int>().update([{0}].skip(1))", 1),
+    ("range_empty", "range({0}, {0})", 1), ("insert_on_empty_seq", "[1].skip(1).insert({0}, {1})", 2), ("binom_zero", "binom({0}, 0)", 1), ("pow_zero", "{0} ** 0", 1), ("mul_zero", "0 * {0}", 1),
 ]
 CONSTRUCT_PRELUDE = ("struct P3(a: int, b: int, c: int)\nunion U3(a: int, b: str)\nstruct G3<T>(x: int, y: T)\n"
                      "fn uf3(a: int, b: int, c: int)->int{ display(\"body ran\").len() + a + b + c }\n"
